@@ -25,6 +25,11 @@ Definition rhe (q : Q) : Z :=
   end.
 Definition to_ticks (beats : Q) : Z := rhe (beats * (tpb # 1))%Q.
 
+(* core_utilities.round_floats(x, n) for a float x given as the rational it denotes: Python's round(x, n) is the
+   correctly rounded decimal, ties to even; the result is returned as its numerator over 10^n *)
+Definition pow10 (n : nat) : Z := 10 ^ Z.of_nat n.
+Definition round_digits (q : Q) (n : nat) : Z := rhe (q * (pow10 n # 1))%Q.
+
 (* --- comparisons: SingleNumberParameter._compare + functools.total_ordering *)
 Definition d_eq (a : durv) (b : Q) : bool := Qeq_bool (qval a) b.
 Definition d_lt (a : durv) (b : Q) : bool := match Qcompare (qval a) b with Lt => true | _ => false end.
